@@ -186,6 +186,22 @@ Theorem C10_src_in_bounds :
 Proof. intros vs lb ub x. apply src_in_bounds. vm_compute. reflexivity. Qed.
 Print Assumptions C10_src_in_bounds.
 
+(* what a calibration reports (read from archipelago_datatree.py: _get_champions, get_best_individuals,
+   run_evolve; fitting_datatree.py: apply_parameters_to_processors, _apply_parameters): for the decision vector
+   x of an island the champion parameters and the parameters of a best individual are convert_to_parameters(x),
+   and the final pipeline run of the island - whose simulated outputs the result carries - is configured, key by
+   key in declaration order, with exactly the reported parameters *)
+Theorem C10_src_reporting :
+  forall (A : Type) (fexp : A -> A) (vs : list (@var A)) x,
+    List.length x = total vs ->
+    g_reported fexp (rp_champion src_report) src_desc vs x = convert_walk fexp vs x /\
+    g_reported fexp (rp_best src_report) src_desc vs x = convert_walk fexp vs x /\
+    exists asg, g_final_applied fexp src_report src_desc vs x = Some asg /\
+                map fst asg = map key vs /\
+                flat_all asg = g_reported fexp (rp_champion src_report) src_desc vs x.
+Proof. intros A fexp vs x. apply src_reporting; vm_compute; reflexivity. Qed.
+Print Assumptions C10_src_reporting.
+
 (* ============================================================================ histories on the object store
 
    The ParameterValues objects (st_vars), the caller's processor (location 0 of st_procs) and the problems
@@ -323,3 +339,7 @@ Example ex_history_on_source :
            ObConv x [Ten 1; Ten 2; Raw (1 # 2)]] /\
   st_vars (fst r) = vs /\ nth_error (st_procs (fst r)) 0 = Some c0 /\ List.length (st_pbs (fst r)) = 2.
 Proof. vm_compute. repeat split; reflexivity. Qed.
+
+(* a result whose final runs get the decision vector instead of the reported parameters is not accepted *)
+Example ex_final_applies_decision_rejected : rp_ok (mkRp true true false) = false.
+Proof. vm_compute. reflexivity. Qed.
